@@ -75,6 +75,24 @@ theorem EnvStep.start (x : EnvStep) (fs : FS) (e : Nat) (hst : Start fs e) : Sta
     · simp [FS.setDir]; omega
     · exact epart
   | setUmask um => exact ⟨⟨wd, wp⟩, elt, eino, edest, epart⟩
+  | putPart md data =>
+    simp only [EnvStep.apply]
+    refine ⟨⟨?_, ?_⟩, ?_, ?_, ?_, ?_⟩
+    · intro j hj; have := wd j hj; simp [FS.setDir] at hj ⊢; have := wd j hj; omega
+    · intro j hj; simp [FS.setDir] at hj; subst hj; simp
+    · simp; omega
+    · simp [List.getElem?_append_left elt]; exact eino
+    · exact edest
+    · simp [FS.setDir]; omega
+  | unlinkPart =>
+    simp only [EnvStep.apply]
+    cases hd : fs.dir.part with
+    | none => exact ⟨⟨wd, wp⟩, elt, eino, edest, epart⟩
+    | some i =>
+      refine ⟨⟨?_, ?_⟩, elt, eino, edest, ?_⟩
+      · intro j hj; exact wd j hj
+      · intro j hj; simp [FS.setDir] at hj
+      · simp [FS.setDir]
 
 /-! ### what a reader of the destination sees -/
 
@@ -92,6 +110,8 @@ def EnvStep.view (v : View) : EnvStep → View
   | .unlinkDest => { v with bytes := none, mode := none }
   | .putDest md data => ⟨some data, some md, v.umask⟩
   | .setUmask um => { v with umask := um }
+  | .putPart _ _ => v
+  | .unlinkPart => v
 
 theorem EnvStep.view_apply (x : EnvStep) (fs : FS) (hwf : fs.WF) : viewOf (x.apply fs) = x.view (viewOf fs) := by
   cases x with
@@ -112,6 +132,16 @@ theorem EnvStep.view_apply (x : EnvStep) (fs : FS) (hwf : fs.WF) : viewOf (x.app
   | putDest md data =>
     simp [EnvStep.apply, EnvStep.view, viewOf, FS.readDest, FS.destMode, FS.inode?, FS.setDir, Inode.cache]
   | setUmask um => simp [EnvStep.apply, EnvStep.view, viewOf, FS.readDest, FS.destMode, FS.inode?]
+  | putPart md data =>
+    simp only [EnvStep.apply, EnvStep.view, viewOf, FS.readDest, FS.destMode, FS.inode?, FS.setDir]
+    cases hd : fs.dir.dest with
+    | none => rfl
+    | some i => simp [List.getElem?_append_left (hwf.1 i hd)]
+  | unlinkPart =>
+    simp only [EnvStep.apply, EnvStep.view, viewOf]
+    cases hd : fs.dir.part with
+    | none => rfl
+    | some i => simp [FS.readDest, FS.destMode, FS.inode?, FS.setDir]
 
 /-! ### a save never changes the umask of the abstract file system -/
 
